@@ -1116,7 +1116,10 @@ def _probe_fn(x, body, inplace=False):
 
 def maplist_case(ctx, case):
     k, ip, body = case['k'], case['ip'], case['body']
+    dup = bool(case.get('dup')) and k > 0
     members = [probe_tree(i, False, False) for i in range(k)]
+    if dup:                              # degenerate list: the same neuron object k times
+        members = [members[0]] * k
     nl = navis.NeuronList(members)
     a0 = [probe_abs(n) for n in members]
     init = abs_str(probe_abs(members[0])) if members else '10,20,-,-,7'
@@ -1129,7 +1132,8 @@ def maplist_case(ctx, case):
         return 'f'
     impl = (f"samelist={1 if r is nl else 0} recv={'.'.join(mem(n) for n in nl.neurons)} res={'.'.join(mem(n) for n in r.neurons)} "
             f"in={'|'.join(abs_str(probe_abs(n)) for n in members)} out={'|'.join(abs_str(probe_abs(n)) for n in r.neurons)}")
-    m = ctx.ask(f"c03.maplist ip={1 if ip else 0} swap=1 k={k} init={init} body={';'.join(body) if body else '-'}")
+    m = ctx.ask(f"c03.maplist ip={1 if ip else 0} swap=1 k={k} dup={1 if dup else 0} init={init} body={';'.join(body) if body else '-'}")
+    ctx.count('maplist', f'ip={int(ip)} k={k} dup={int(dup)}')
     mod = ' '.join(w for w in m.split() if not w.startswith('ext='))
     ctx.corr(impl, mod, f'map_neuronlist wrapper inplace={ip} on {k} neurons, body {body}: list identity / members / contents vs heap model', case)
     if ip:
@@ -1228,7 +1232,7 @@ def gen_prim_cases(ctx):
                         continue
                     yield 'copy', dict(type=typ, g=g, i=ig, make_stale=st)
     for i in range(ctx.budget(20, 120)):
-        yield 'maplist', dict(k=ctx.rng.randint(0, 4), ip=ctx.rng.random() < 0.5,
+        yield 'maplist', dict(k=ctx.rng.randint(0, 4), ip=ctx.rng.random() < 0.5, dup=ctx.rng.random() < 0.2,
                               body=[t for t in gen_body(ctx.rng, False, False, tree=False, maxlen=4)])
 
 
